@@ -64,8 +64,8 @@ CLAIMED = {
     "C15": dict(
         engine="E3-gre",
         technique="grammar IR -> z3 regular expressions; language-equality query (all words) between each grammar shape and its printed-and-reread form; CrossHair for literal quoting",
-        text="In part: for ~170 (thorough ~1600) generated grammar shapes (every postfix operator over terminals, nonterminals, grouped alternatives and sequences, bytes and non-ASCII literals, nested to depth 2/3, in 5 contexts) z3 decides that the grammar printed by repr() and read back denotes the same language for ALL words (no length bound). Literal quoting: Terminal.format_as_spec -> from_symbol round-trips every str/bytes of length <= 2 (3) over a 12-character alphabet with both quotes, backslash, newline, NUL, non-ASCII.",
-        note="Trusted: engine/gre.py (validated per run against Grammar.fuzz/parse), z3 sequence theory, the real spec reader. NOT covered: constraint printing, generators, party annotations, regex terminals, recursive grammars.", ref="DESIGN.md section 3 C15"),
+        text="Grammars: for ~180 (thorough ~1600) generated grammar shapes (every postfix operator over terminals, nonterminals, grouped alternatives and sequences, bytes and non-ASCII literals, nested to depth 2/3, in 5 contexts) z3 decides that the grammar printed by repr() and read back denotes the same language for ALL words (no length bound). Seven shapes pair a literal and a regex terminal with the same text (regex subset translated to z3). Constraints: each of the 38 programs of the C07 family is printed with format_as_spec() and read back; those that read back agree with the original on EVERY tree of the C07 bound (CrossHair); three classes that do not read back or change meaning are genuine defects listed as known findings. Literal quoting: Terminal.format_as_spec -> from_symbol round-trips every str/bytes of length <= 2 (3) over a 12-character alphabet with both quotes, backslash, newline, NUL, non-ASCII.",
+        note="Trusted: engine/gre.py (validated per run against Grammar.fuzz/parse), z3 sequence theory, the real spec reader. NOT covered: generators, party annotations, regex constructs outside the translated subset, recursive grammars; constraint programs are a fixed list.", ref="DESIGN.md section 3 C15"),
     "C16": dict(
         technique="bounded symbolic execution of generation and subtree replacement on specs with generators (symbolic draws, symbolic generator return value, symbolic replaced node)",
         text="For 4 specs (two distinct arguments, same symbol twice, nested generated argument, stub generator): on every path each generator-defined field equals the generator (re-implemented in the harness) applied to the arguments recorded in .sources, its children are read-only; replace() of any node (sources included) keeps these invariants, never replaces read-only nodes, never modifies its input; a stub value that does not fit the rule raises FandangoParseError, a fitting one appears verbatim.",
